@@ -30,6 +30,15 @@ P = {
   text="Lean theorems (Props/C02.lean): for every scenario of processSignature and EVERY enforcement map, the model accepts iff no validation with action enforce failed and the plugin conditions hold (closed formula acceptSpec), every result carries the level's action, skipped revocation is not performed natively or by plugin, a declared capability replaces the native check, acceptance is monotone under weakening (accept_mono), GetVerificationLevel always yields integrity=enforce for non-skip levels (any override list). The known finding F-C02b is carved out as an explicit hypothesis with a decide-proved counterexample. Correspondence: stratified scenarios through the real verifier.Verify with instrumented trust store / revocation validator / plugin manager.",
   note="Truth of the individual validations is an input of the scenario (their correctness is C03-C06). Non-critical extended attributes and malformed plugin attributes are compared model-vs-implementation but excluded from the exactness clause (outside the property's quantifier). Known finding F-C02b printed as KNOWN-FINDING.",
   tech="Lean 4 proof (stage closed forms + case analysis) + model/implementation correspondence"),
+ "C03": dict(
+  text="Lean theorems (Props/C03.lean): the store-loading loop (dedup set, cut at the first ':', type filter, first load error aborts) and the authenticity decision for lists of any length by induction: auth_pass_iff / sound / complete (passes iff every listed store of the scheme's type loads and one of them holds a chain certificate), other_types_never_loaded (calls only for the required type, each at most once, in list order, never tsa), unlisted_irrelevant (worlds agreeing on the listed stores of the required type give the same result and call log), load_error_fails, statement selection soundness. The required type is written literally in Holds so a wrong scheme mapping is a concrete violation. Correspondence: certificate placements into same-named stores of all three types x statement lists (duplicates, several types, failing stores, other statements) x both schemes and formats, against an instrumented in-memory store and the real x509TrustStore over generated directory trees.",
+  note="Certificate identity = DER byte equality (8 distinct real certificates); directory-store load results are computed by the harness from what it placed; tsa loads cannot occur without a countersignature (C06).",
+  tech="Lean 4 proof (loop invariants by induction) + regenerated scheme/type facts + correspondence"),
+ "C06": dict(
+  text="Lean theorems (Props/C06.lean), times as Int nanoseconds with `now` an input, chains of any length: expiry_fails_iff (with the exact boundary), sa_pass_iff (every window contains the authentic signing time, ends inclusive), performs_iff (when timestamp verification applies), x509_no_tsa_pass_iff / afterCertExpiry_unexpired_uses_now (every window contains now), x509_tsa_pass_iff over the GoodCountersignature predicate (present, over this signature value, TSA root in a listed tsa store, chain rules ok, [t-acc,t+acc] inside every window, TSA chain unrevoked - reusing C05's aggregation theorem), shift invariance. Correspondence: real verifier.Verify on hand-assembled JWS envelopes (signing times outside windows are possible) with an in-process RFC 3161 TSA: 16 countersignature faults, windows before/around/after now, both schemes, tsa listings x verifyTimestamp options.",
+  note="PARTIAL for boundary instants only: there is no clock seam (time.Now() is called directly), so equality with now is proved on the model and every instant compared with the clock keeps >= 60 s distance in the harness. tspclient-go, crypto/x509 and notation-core-go are trusted for the abstract token facts. JWS only.",
+  tech="Lean 4 proof (decision logic over Int times, loops = List.all/any) + correspondence with a local TSA"),
+
  "C04": dict(
   text="Lean theorems (Props/C04.lean): the identity check of the model equals a declarative specification over attribute sets for every input; soundness and completeness w.r.t. the LEAF subject only, order invariance under List.Perm, S/ST alias invariance, fail-closed, wildcard. Correspondence: minted leaf certificates with AST-generated subjects and identity lists through the real verifier.Verify.",
   note="go-ldap ParseDN and pkix.Name.String() are trusted (their results are model inputs, validated per case by the wf clause). Spacing invariance is checked end-to-end, not proved.",
